@@ -335,7 +335,7 @@ func (m *Module) writePackage(b *Built) {
 
 	// hooks
 	var hk bytes.Buffer
-	fmt.Fprintf(&hk, "package %s\n\nimport (\n\t\"context\"\n\n\t\"github.com/hashicorp/terraform-plugin-framework/attr\"\n\t\"github.com/hashicorp/terraform-plugin-framework/diag\"\n\t\"github.com/hashicorp/terraform-plugin-framework/tfsdk\"\n\t\"verif/tfx\"\n)\n\nvar _ = context.Background\nvar _ attr.Value\nvar _ diag.Diagnostics\nvar _ tfsdk.Attribute\nvar _ = tfx.V\n", tfPkg)
+	fmt.Fprintf(&hk, "package %s\n\nimport (\n\t\"context\"\n\t\"fmt\"\n\n\t\"github.com/hashicorp/terraform-plugin-framework/attr\"\n\t\"github.com/hashicorp/terraform-plugin-framework/diag\"\n\t\"github.com/hashicorp/terraform-plugin-framework/tfsdk\"\n\t\"verif/tfx\"\n)\n\nvar _ = context.Background\nvar _ attr.Value\nvar _ diag.Diagnostics\nvar _ tfsdk.Attribute\nvar _ = tfx.V\n\n// validators and plan modifiers of the target package itself (the configuration names them unqualified)\nvar LocalValidator tfsdk.AttributeValidator = tfx.Validator{ID: 77, Form: \"LocalValidator\"}\n\nfunc LocalV(n int) tfsdk.AttributeValidator { return tfx.Validator{ID: n, Form: fmt.Sprintf(\"LocalV(%%d)\", n)} }\n\nvar LocalModifier tfsdk.AttributePlanModifier = tfx.PlanModifier{ID: 78, Form: \"LocalModifier\"}\n\nfunc LocalPM(n int) tfsdk.AttributePlanModifier { return tfx.PlanModifier{ID: n, Form: fmt.Sprintf(\"LocalPM(%%d)\", n)} }\n", tfPkg)
 	for _, s := range customSuffixes(b.Specs) {
 		fmt.Fprintf(&hk, "\nfunc GenSchema%[1]s(ctx context.Context, a tfsdk.Attribute) tfsdk.Attribute { return tfx.HookGenSchema(%[1]q, ctx, a) }\n", s)
 		fmt.Fprintf(&hk, "func CopyFrom%[1]s[T any](diags diag.Diagnostics, v attr.Value, o *T) { tfx.HookCopyFrom(%[1]q, diags, v, o) }\n", s)
